@@ -94,6 +94,7 @@ var ReplaceNumbersInWords = false
 // example, "ORDER BY col ASC" is the same as "ORDER BY col", so "ASC" in the
 // fingerprint is removed.
 func GetFingerprint(q string) string {
+	q = stripComments(q)
 	q += " " // need range to run off end of original query
 	prevWord := ""
 	f := make([]byte, len(q)+1)
@@ -701,6 +702,65 @@ func wordIn(q string, words ...string) bool {
 func GetMd5(fingerPrint string) string {
 	data := []byte(fingerPrint)
 	return fmt.Sprintf("%x", md5.Sum(data))
+}
+
+// stripComments replaces every comment outside quoted text (/* ... */, "-- " and "#" up to the end of
+// the line) by a space before the state machine runs: it recognises a comment only in some positions
+// and copied one that follows an operator or VALUES ("a = /* c */ 5") into the fingerprint.
+// MySQL-specific code (/*! ... */) is kept.
+func stripComments(q string) string {
+	if !strings.Contains(q, "/*") && !strings.Contains(q, "--") && !strings.Contains(q, "#") {
+		return q
+	}
+	var sb strings.Builder
+	sb.Grow(len(q))
+	n := len(q)
+	for i := 0; i < n; {
+		ch := q[i]
+		switch {
+		case ch == '\'' || ch == '"' || ch == '`':
+			j := i + 1
+			for j < n {
+				if q[j] == '\\' && ch != '`' {
+					j += 2
+					continue
+				}
+				if q[j] == ch {
+					if j+1 < n && q[j+1] == ch {
+						j += 2
+						continue
+					}
+					j++
+					break
+				}
+				j++
+			}
+			if j > n {
+				j = n
+			}
+			sb.WriteString(q[i:j])
+			i = j
+		case ch == '/' && i+1 < n && q[i+1] == '*' && !(i+2 < n && q[i+2] == '!'):
+			end := strings.Index(q[i+2:], "*/")
+			if end < 0 {
+				// not terminated: leave it to the state machine
+				sb.WriteString(q[i:])
+				i = n
+			} else {
+				sb.WriteByte(' ')
+				i += 2 + end + 2
+			}
+		case ch == '#', ch == '-' && i+2 < n && q[i+1] == '-' && isSpace(rune(q[i+2])):
+			for i < n && q[i] != '\n' {
+				i++
+			}
+			sb.WriteByte(' ')
+		default:
+			sb.WriteByte(ch)
+			i++
+		}
+	}
+	return sb.String()
 }
 
 // GetFingerprintOperation return fingerprint's operation
